@@ -154,7 +154,7 @@ def translate(rep, idx):
 
 
 def all_resources(rep, idx):
-    c = get_fn(idx, "MemoryMap.all_resources")
+    c = get_fn(idx, "MemoryMap.all_resources", no_inline=("_translate",))
     site = c.fi.site
     rep.analysed(site)
     loops = [L for L in c.t.loops.values() if c.norm(L.iter) == c.parse("self._ranges.items()")]
@@ -169,7 +169,7 @@ def all_resources(rep, idx):
     direct, through = [], []
     for v, frm, gen, ln in c.t.yields:
         v = c.norm(v)
-        conds = [(c.norm(fr[1]), fr[2]) for fr in gen if fr[0] == 'pyif']
+        conds = [(c.norm(fr[1]), fr[2]) for fr in gen if fr[0] == 'pyif' and c.norm(fr[1]) in (is_res, is_win)]
         if v[0] == 'call' and ir.show(v[1]).endswith("ResourceInfo"):
             direct.append((v, conds, gen))
         elif v[0] == 'call' and v[1] == c.parse("self._translate"):
@@ -207,7 +207,7 @@ def all_resources(rep, idx):
 
 
 def find_resource(rep, idx):
-    c = get_fn(idx, "MemoryMap.find_resource")
+    c = get_fn(idx, "MemoryMap.find_resource", no_inline=("_translate",))
     site = c.fi.site
     rep.analysed(site)
     rets = [(c.norm(v), gen, ln) for v, gen, ln in c.t.returns]
@@ -215,6 +215,7 @@ def find_resource(rep, idx):
     through = [r for r in rets if r[0][0] == 'call' and r[0][1] == c.parse("self._translate")]
     own = c.parse("id(resource) in self._resources")
     ok = len(direct) == 1 and [(c.norm(fr[1]), fr[2]) for fr in direct[0][1] if fr[0] == 'pyif'] == [(own, True)]
+    order_ok = True
     rep.check(ok, "C03.4", site, "the map's own table is consulted first", f"{len(direct)} direct result(s)")
     if ok:
         want = c.parse("ResourceInfo(resource, (self._resources[id(resource)][1],), self._resources[id(resource)][2].start, "
@@ -226,7 +227,8 @@ def find_resource(rep, idx):
         return
     v, gen, ln = through[0]
     loops = [fr[1] for fr in gen if fr[0] == 'for']
-    conds = [fr for fr in gen if fr[0] == 'pyif']
+    # the early `return` of the own-table branch puts the window search under `not own`: that is the order we want
+    conds = [fr for fr in gen if fr[0] == 'pyif' and not (c.norm(fr[1]) == own and fr[2] is False)]
     lok = len(loops) == 1 and c.norm(c.t.loops[loops[0]].iter) == c.parse("self._windows.values()")
     rep.check(lok and not conds, "C03.4", site, "every window is searched, unconditionally",
               f"loop over {[ir.show(c.norm(c.t.loops[i].iter)) for i in loops]} with extra condition(s) {[ir.show(c.norm(f[1])) for f in conds]}: "
@@ -262,14 +264,15 @@ def decode_address(rep, idx):
     rep.analysed(site)
     A = c.parse("self._ranges.get(address)")
     env = {"A": A}
-    rets = [(c.norm(v), [(c.norm(fr[1]), fr[2]) for fr in gen if fr[0] == 'pyif']) for v, gen, ln in c.t.returns]
     is_res = c.parse("id(A) in self._resources", env)
     is_win = c.parse("id(A) in self._windows", env)
+    rets = [(c.norm(v), [(c.norm(fr[1]), fr[2]) for fr in gen if fr[0] == 'pyif' and c.norm(fr[1]) in (is_res, is_win)])
+            for v, gen, ln in c.t.returns]
     r1 = [r for r in rets if r[0] == A]
     rep.check(len(r1) == 1 and r1[0][1] == [(is_res, True)], "C03.6", site, "an address inside a resource decodes to that resource",
               f"{[ (ir.show(v)[:60], [(ir.show(x), p) for x, p in cs]) for v, cs in rets]}")
     r2 = [r for r in rets if r[0][0] == 'call' and r[0][1] == ('attr', A, 'decode_address')]
-    if len(r2) != 1 or r2[0][1] != [(is_res, False), (is_win, True)]:
+    if len(r2) != 1 or r2[0][1] not in ([(is_res, False), (is_win, True)],):
         rep.bad("C03.6", site, "an address inside a window is decoded by the window's map", "no recursive decode under `elif id(assignment) in self._windows`")
     else:
         arg = r2[0][0][2][0] if r2[0][0][2] else None
